@@ -401,22 +401,23 @@ theorem rdbLoop_conts_complete (fin : Fin) (n : Nat) (o : Int) (cs : List (List 
 
 /-! ### the leader's replies -/
 
-/-- what `ReplicaLeader.Handle` can answer to the request `(rid, _)` when its cache is a
-    faithful copy of history -/
-inductive Shape (h : Hist β) (L : Leader β) (rid : Id) : List (Msg β) → Prop
-  | silent : Shape h L rid []
-  | ctl (c : Code) (hc : c = .failure ∨ c = .clear ∨ c = .error) : Shape h L rid [ctl c]
-  | hello (o : Int) (hr : rid = "" ∨ rid = "?") : Shape h L rid [⟨.info, L.cur, false, o, 0, []⟩]
-  | handover (o : Int) : Shape h L rid [⟨.handover, L.cur, false, o, 0, []⟩]
-  | aof (off : Int) (cs : List (List β)) (k : Nat) (hid : L.cur = rid) (h0 : 0 ≤ off)
+/-- what `ServiceReplica`/`Handle` can answer to the request `(rid, _)` when the cache
+    its reader is opened on is a faithful copy of history; `c` is the id it announces -/
+inductive Shape (h : Hist β) (c : Id) (rid : Id) : List (Msg β) → Prop
+  | silent : Shape h c rid []
+  | ctl (k : Code) (hc : k = .failure ∨ k = .clear ∨ k = .error) : Shape h c rid [ctl k]
+  | clearThen (ms : List (Msg β)) : Shape h c rid (ctl .clear :: ms)
+  | hello (o : Int) (hr : rid = "" ∨ rid = "?") : Shape h c rid [⟨.info, c, false, o, 0, []⟩]
+  | handover (o : Int) : Shape h c rid [⟨.handover, c, false, o, 0, []⟩]
+  | aof (off : Int) (cs : List (List β)) (k : Nat) (h0 : 0 ≤ off)
       (hb : cs.flatten = hseg h rid off.toNat k) :
-      Shape h L rid (⟨.info, "", true, off, -1, []⟩ :: conts off cs)
-  | rdb (off : Int) (base : Nat) (s : List β) (cs : List (List β)) (hid : L.cur = rid)
+      Shape h c rid (⟨.info, "", true, off, -1, []⟩ :: conts off cs)
+  | rdb (off : Int) (base : Nat) (s : List β) (cs : List (List β))
       (hs : s = h.snap rid base) (hb : cs.flatten = s) :
-      Shape h L rid (⟨.info, "", false, base, s.length, []⟩ :: conts off cs)
+      Shape h c rid (⟨.info, "", false, base, s.length, []⟩ :: conts off cs)
 
-theorem sendData_shape (h : Hist β) (L : Leader β) (hL : L.Faithful h) (rid : Id)
-    (hid : L.cur = rid) (off : Int) (ch : List Nat) : Shape h L rid (L.sendData off ch).msgs := by
+theorem sendData_shape (h : Hist β) (c : Id) (L : Leader β) (hL : L.Faithful h) (rid : Id)
+    (off : Int) (ch : List Nat) : Shape h c rid (L.sendData rid off ch).msgs := by
   unfold Leader.sendData
   split
   · exact .ctl _ (Or.inr (Or.inl rfl))
@@ -424,52 +425,59 @@ theorem sendData_shape (h : Hist β) (L : Leader β) (hL : L.Faithful h) (rid : 
     obtain ⟨hf, htl⟩ := hL d hd
     split
     · next hin =>
-      simp only [Leader.inAof, Bool.and_eq_true, decide_eq_true_eq] at hin
-      obtain ⟨⟨_, hlo⟩, hhi⟩ := hin
-      simp only [Data.right] at hhi htl
-      refine .aof _ _ (d.bytes.length - (off - (d.base : Int)).toNat + L.tail.length) hid (by omega) ?_
-      rw [chop_flatten, hseg_append, ← hid]
-      congr 1
-      · rw [hf.1, hseg_drop _ _ _ _ _ (by simp; omega)]
-        simp only [hseg_length]
+      split
+      · exact .ctl _ (Or.inr (Or.inr rfl))
+      · next hne =>
+        have hid : L.cur = rid := by simpa using hne
+        simp only [Leader.inAof, Bool.and_eq_true, decide_eq_true_eq] at hin
+        obtain ⟨⟨_, hlo⟩, hhi⟩ := hin
+        simp only [Data.right] at hhi htl
+        refine .aof _ _ (d.bytes.length - (off - (d.base : Int)).toNat + L.tail.length) (by omega) ?_
+        rw [chop_flatten, hseg_append, ← hid]
         congr 1
-        omega
-      · rw [htl]
-        simp only [hseg_length]
-        congr 1
-        omega
+        · rw [hf.1, hseg_drop _ _ _ _ _ (by simp; omega)]
+          simp only [hseg_length]
+          congr 1
+          omega
+        · rw [htl]
+          simp only [hseg_length]
+          congr 1
+          omega
     · split
       · exact .ctl _ (Or.inr (Or.inl rfl))
       · next s hs =>
         split
-        · exact .rdb _ _ _ _ hid (by rw [← hid]; exact hf.2 s hs) (chop_flatten _ _)
+        · split
+          · exact .ctl _ (Or.inr (Or.inr rfl))
+          · next hne =>
+            have hid : L.cur = rid := by simpa using hne
+            exact .rdb _ _ _ _ (by rw [← hid]; exact hf.2 s hs) (chop_flatten _ _)
         · exact .ctl _ (Or.inr (Or.inl rfl))
 
-theorem handle_shape (h : Hist β) (L : Leader β) (hL : L.Faithful h) (rid : Id) (roff : Int)
-    (ch : List Nat) : Shape h L rid (L.handle rid roff ch).msgs := by
-  unfold Leader.handle
+theorem handle_shape (h : Hist β) (v : View β) (hL : v.l4.Faithful h) (rid : Id) (roff : Int)
+    (ch : List Nat) : Shape h v.l2.cur rid (v.handle rid roff ch).msgs := by
+  unfold View.handle
   split
-  · exact .silent
+  · exact .ctl _ (Or.inl rfl)
   · split
-    · exact .ctl _ (Or.inl rfl)
-    · rename_i i0 tl _
-      by_cases h1 : i0 ≠ L.cur
-      · rw [if_pos h1]; exact .ctl _ (Or.inr (Or.inl rfl))
-      · rw [if_neg h1]
-        by_cases h2 : (rid = "" || rid = "?") = true
-        · rw [if_pos h2]; exact .hello _ (by simpa using h2)
-        · rw [if_neg h2]
-          by_cases h3 : i0 ≠ rid
-          · rw [if_pos h3]; exact .ctl _ (Or.inr (Or.inr rfl))
-          · rw [if_neg h3]
-            have hid : L.cur = rid := by
-              have a : i0 = L.cur := by simpa using h1
-              have b : i0 = rid := by simpa using h3
-              rw [← a, b]
-            by_cases h4 : roff - latest L.data > 0
-            · rw [if_pos h4]; exact .handover _
-            · rw [if_neg h4]; exact sendData_shape h L hL rid hid _ _
-
+    · exact .silent
+    · split
+      · exact .ctl _ (Or.inl rfl)
+      · rename_i i0 tl _
+        simp only
+        by_cases h1 : i0 ≠ v.l1.cur
+        · rw [if_pos h1]; exact .clearThen _
+        · rw [if_neg h1]
+          simp only [List.nil_append]
+          by_cases h2 : (rid = "" || rid = "?") = true
+          · rw [if_pos h2]; exact .hello _ (by simpa using h2)
+          · rw [if_neg h2]
+            by_cases h3 : v.l2.inputIds.head? ≠ some rid
+            · rw [if_pos h3]; exact .ctl _ (Or.inr (Or.inr rfl))
+            · rw [if_neg h3]
+              by_cases h4 : roff - latest v.l2.data > 0
+              · rw [if_pos h4]; exact .handover _
+              · rw [if_neg h4]; exact sendData_shape h _ v.l4 hL rid _ _
 
 /-! ### the follower's steps -/
 
@@ -716,21 +724,21 @@ theorem aofSync_ok {h : Hist β} (bk : Backend) (F : Store β) (x : Id) (ms : Li
     exact aofRecv_ok bk _ x ms fin budget lost id hx1 hx2 this.1 off cs k hms hb (hf.of_sub this.2.1)
   · exact aofRecv_ok bk _ x ms fin budget lost id hx1 hx2 hat off cs k hms hb hf
 
-theorem syncLoop_ok {h : Hist β} (bk : Backend) (L : Leader β) (lost : Nat) (x : Id) (id : Id)
-    (hx1 : x ≠ "") (hx2 : x ≠ "?") (hL : L.Faithful h) :
-    ∀ (fuel budget : Nat) (ch : List Nat) (F : Store β) (fsp : Id × Int), At bk F x → fsp.1 = x →
+theorem syncLoop_ok {h : Hist β} (bk : Backend) (V : Nat → View β) (lost : Nat) (x : Id) (id : Id)
+    (hx1 : x ≠ "") (hx2 : x ≠ "?") (hL : ∀ n, (V n).l4.Faithful h) :
+    ∀ (fuel n budget : Nat) (ch : List Nat) (F : Store β) (fsp : Id × Int), At bk F x → fsp.1 = x →
       FaithfulAt h F.dirs id →
-      WF bk (syncLoop bk L lost x fuel budget ch F fsp).store ∧
-        FaithfulAt h (syncLoop bk L lost x fuel budget ch F fsp).store.dirs id := by
+      WF bk (syncLoopV bk V lost x fuel n budget ch F fsp).store ∧
+        FaithfulAt h (syncLoopV bk V lost x fuel n budget ch F fsp).store.dirs id := by
   intro fuel
   induction fuel with
-  | zero => intro budget ch F fsp hat _ hf; exact ⟨hat.wf hx1 hx2, hf⟩
+  | zero => intro n budget ch F fsp hat _ hf; exact ⟨hat.wf hx1 hx2, hf⟩
   | succ fuel ih =>
-    intro budget ch F fsp hat hfx hf
+    intro n budget ch F fsp hat hfx hf
     have hwf := hat.wf hx1 hx2
-    unfold syncLoop
-    have hs := handle_shape h L hL fsp.1 fsp.2 ch
-    generalize L.handle fsp.1 fsp.2 ch = rp at hs ⊢
+    unfold syncLoopV
+    have hs := handle_shape h (V n) (hL n) fsp.1 fsp.2 ch
+    generalize (V n).handle fsp.1 fsp.2 ch = rp at hs ⊢
     obtain ⟨msgs, fin, rest⟩ := rp
     simp only at hs ⊢
     cases budget with
@@ -755,17 +763,30 @@ theorem syncLoop_ok {h : Hist β} (bk : Backend) (L : Leader β) (lost : Nat) (x
             · intro p hp; cases hp
             · simp
         · exact ⟨hwf, hf⟩
+      | clearThen ms' =>
+        simp only [ctl, respErr, Out.pre_store, if_true]
+        rw [hfx]
+        cases bk with
+        | disk =>
+          rw [delRunId_disk_has (special_false hx1 hx2) (hat.2.1 rfl)]
+          refine ⟨⟨Or.inl rfl, ?_⟩, hf.of_sub (sub_dropKey _ _)⟩
+          simp
+        | mem =>
+          rw [← hat.1, delRunId_mem_cur]
+          refine ⟨⟨?_, fun _ => rfl, ?_⟩, hf.of_sub (Sub.nil _)⟩
+          · intro p hp; cases hp
+          · simp
       | hello o hr =>
         rw [hfx] at hr
         rcases hr with hr | hr
         · exact absurd hr hx1
         · exact absurd hr hx2
       | handover o => exact ⟨hwf, hf⟩
-      | aof off cs k hid h0 hb =>
+      | aof off cs k h0 hb =>
         simp only [respErr, Out.pre_store, reduceCtorEq, if_false, if_true]
         rw [hfx] at hb ⊢
         exact aofSync_ok bk F x _ fin b lost id hx1 hx2 hat off cs k rfl hb hf
-      | rdb off base s cs hid hs hb =>
+      | rdb off base s cs hs hb =>
         simp only [respErr, Out.pre_store, reduceCtorEq, if_false, Bool.false_eq_true]
         rw [hfx] at hs ⊢
         have hr := reset_at bk F x hx1 hx2 hat
@@ -799,17 +820,17 @@ theorem syncLoop_ok {h : Hist β} (bk : Backend) (L : Leader β) (lost : Nat) (x
           have hid2 := startPoint_at_id bk F2 x hx1 hx2 hat2 _ hcd
           have hst := startPoint_at bk F2 x hx1 hx2 hat2
           rw [hst]
-          exact ih _ _ F2 _ hat2 hid2 hf2
+          exact ih _ _ _ F2 _ hat2 hid2 hf2
 
 
-theorem session_ok {h : Hist β} (bk : Backend) (L : Leader β) (F : Store β) (ch : List Nat)
-    (cut lost fuel : Nat) (id : Id) (hL : L.Faithful h) (hq : L.cur ≠ "?") (hwf : WF bk F)
-    (hf : FaithfulAt h F.dirs id) :
-    WF bk (session bk L F ch cut lost fuel).store ∧
-      FaithfulAt h (session bk L F ch cut lost fuel).store.dirs id := by
-  unfold session
-  have hs := handle_shape h L hL "" 0 ch
-  generalize L.handle "" 0 ch = rp at hs ⊢
+theorem session_ok {h : Hist β} (bk : Backend) (V : Nat → View β) (F : Store β) (ch : List Nat)
+    (cut lost fuel : Nat) (id : Id) (hL : ∀ n, (V n).l4.Faithful h) (hq : (V 0).l2.cur ≠ "?")
+    (hwf : WF bk F) (hf : FaithfulAt h F.dirs id) :
+    WF bk (sessionV bk V F ch cut lost fuel).store ∧
+      FaithfulAt h (sessionV bk V F ch cut lost fuel).store.dirs id := by
+  unfold sessionV
+  have hs := handle_shape h (V 0) (hL 0) "" 0 ch
+  generalize (V 0).handle "" 0 ch = rp at hs ⊢
   obtain ⟨msgs, fin, rest⟩ := rp
   simp only at hs ⊢
   cases cut with
@@ -819,17 +840,17 @@ theorem session_ok {h : Hist β} (bk : Backend) (L : Leader β) (F : Store β) (
     | silent => exact ⟨hwf, hf⟩
     | ctl c hc =>
       rcases hc with rfl | rfl | rfl <;> exact ⟨hwf, hf⟩
+    | clearThen ms' => exact ⟨hwf, hf⟩
     | hello o _ =>
       simp only [respErr, Out.pre_store]
-      by_cases hc : L.cur = ""
+      by_cases hc : (V 0).l2.cur = ""
       · rw [if_pos hc]; exact ⟨hwf, hf⟩
       · rw [if_neg hc]
-        have hp := preSync_ok bk F L.cur o hc hq hwf
-        exact syncLoop_ok bk L lost L.cur id hc hq hL fuel b rest _ _ hp.1 hp.2.1 (hf.of_sub hp.2.2)
+        have hp := preSync_ok bk F (V 0).l2.cur o hc hq hwf
+        exact syncLoop_ok bk V lost (V 0).l2.cur id hc hq hL fuel 1 b rest _ _ hp.1 hp.2.1 (hf.of_sub hp.2.2)
     | handover o => exact ⟨hwf, hf⟩
-    | aof off cs k hid h0 hb => exact ⟨hwf, hf⟩
-    | rdb off base s cs hid hs hb => exact ⟨hwf, hf⟩
-
+    | aof off cs k h0 hb => exact ⟨hwf, hf⟩
+    | rdb off base s cs hs hb => exact ⟨hwf, hf⟩
 
 /-! ### contiguity: the follower never opens a writer away from the end of its data -/
 
@@ -869,48 +890,57 @@ theorem rdbLoop_cls (fin : Fin) (n r : Nat) (ms : List (Msg β)) (c : Cls)
         · next k hk => simp at hc; subst hc; exact respErr_ne_discont hk
         · exact ih n _ hc
 
-theorem sendData_aof_off (L : Leader β) (off : Int) (ch : List Nat) (m : Msg β)
-    (ms : List (Msg β)) (hm : (L.sendData off ch).msgs = m :: ms) (ha : m.aof = true) :
+theorem sendData_aof_off (L : Leader β) (rid : Id) (off : Int) (ch : List Nat) (m : Msg β)
+    (ms : List (Msg β)) (hm : (L.sendData rid off ch).msgs = m :: ms) (ha : m.aof = true) :
     m.offset = off := by
   unfold Leader.sendData at hm
   split at hm
   · simp only [List.cons.injEq] at hm; rw [← hm.1] at ha; simp [ctl] at ha
   · split at hm
-    · simp only [List.cons.injEq] at hm; rw [← hm.1]
+    · split at hm
+      · simp only [List.cons.injEq] at hm; rw [← hm.1] at ha; simp [ctl] at ha
+      · simp only [List.cons.injEq] at hm; rw [← hm.1]
     · split at hm
       · simp only [List.cons.injEq] at hm; rw [← hm.1] at ha; simp [ctl] at ha
       · split at hm
-        · simp only [List.cons.injEq] at hm; rw [← hm.1] at ha; simp at ha
+        · split at hm
+          · simp only [List.cons.injEq] at hm; rw [← hm.1] at ha; simp [ctl] at ha
+          · simp only [List.cons.injEq] at hm; rw [← hm.1] at ha; simp at ha
         · simp only [List.cons.injEq] at hm; rw [← hm.1] at ha; simp [ctl] at ha
 
 /-- a stream announcement never starts before the requested offset -/
-theorem handle_aof_ge (L : Leader β) (rid : Id) (roff : Int) (ch : List Nat) (m : Msg β)
-    (ms : List (Msg β)) (hm : (L.handle rid roff ch).msgs = m :: ms) (ha : m.aof = true) :
+theorem handle_aof_ge (v : View β) (rid : Id) (roff : Int) (ch : List Nat) (m : Msg β)
+    (ms : List (Msg β)) (hm : (v.handle rid roff ch).msgs = m :: ms) (ha : m.aof = true) :
     roff ≤ m.offset := by
-  unfold Leader.handle at hm
+  unfold View.handle at hm
   split at hm
-  · cases hm
+  · simp only [List.cons.injEq] at hm; rw [← hm.1] at ha; simp [ctl] at ha
   · split at hm
-    · simp only [List.cons.injEq] at hm; rw [← hm.1] at ha; simp [ctl] at ha
-    · rename_i i0 tl _
-      by_cases h1 : i0 ≠ L.cur
-      · rw [if_pos h1] at hm
-        simp only [List.cons.injEq] at hm; rw [← hm.1] at ha; simp [ctl] at ha
-      · rw [if_neg h1] at hm
-        by_cases h2 : (rid = "" || rid = "?") = true
-        · rw [if_pos h2] at hm
-          simp only [List.cons.injEq] at hm; rw [← hm.1] at ha; simp at ha
-        · rw [if_neg h2] at hm
-          by_cases h3 : i0 ≠ rid
-          · rw [if_pos h3] at hm
-            simp only [List.cons.injEq] at hm; rw [← hm.1] at ha; simp [ctl] at ha
-          · rw [if_neg h3] at hm
-            by_cases h4 : roff - latest L.data > 0
-            · rw [if_pos h4] at hm
-              simp only [List.cons.injEq] at hm; rw [← hm.1] at ha; simp at ha
-            · rw [if_neg h4] at hm
-              rw [sendData_aof_off L _ ch m ms hm ha]
-              split <;> omega
+    · cases hm
+    · split at hm
+      · simp only [List.cons.injEq] at hm; rw [← hm.1] at ha; simp [ctl] at ha
+      · rename_i i0 tl _
+        simp only at hm
+        by_cases h1 : i0 ≠ v.l1.cur
+        · rw [if_pos h1] at hm
+          simp only [List.cons_append, List.nil_append, List.cons.injEq] at hm
+          rw [← hm.1] at ha; simp [ctl] at ha
+        · rw [if_neg h1] at hm
+          simp only [List.nil_append] at hm
+          by_cases h2 : (rid = "" || rid = "?") = true
+          · rw [if_pos h2] at hm
+            simp only [List.cons.injEq] at hm; rw [← hm.1] at ha; simp at ha
+          · rw [if_neg h2] at hm
+            by_cases h3 : v.l2.inputIds.head? ≠ some rid
+            · rw [if_pos h3] at hm
+              simp only [List.cons.injEq] at hm; rw [← hm.1] at ha; simp [ctl] at ha
+            · rw [if_neg h3] at hm
+              by_cases h4 : roff - latest v.l2.data > 0
+              · rw [if_pos h4] at hm
+                simp only [List.cons.injEq] at hm; rw [← hm.1] at ha; simp at ha
+              · rw [if_neg h4] at hm
+                rw [sendData_aof_off v.l4 rid _ ch m ms hm ha]
+                split <;> omega
 
 /-- the follower asks for the end of what it holds -/
 def Pos (F : Store β) (fsp : Id × Int) : Prop := ∀ d, F.curData = some d → fsp.2 = (d.right : Int)
@@ -984,18 +1014,18 @@ theorem aofSync_nodiscont (bk : Backend) (F : Store β) (x : Id) (m : Msg β) (m
       rw [hcd] at hd'; cases hd'
       omega
 
-theorem syncLoop_nodiscont (bk : Backend) (L : Leader β) (lost : Nat) (x : Id)
+theorem syncLoop_nodiscont (bk : Backend) (V : Nat → View β) (lost : Nat) (x : Id)
     (hx1 : x ≠ "") (hx2 : x ≠ "?") :
-    ∀ (fuel budget : Nat) (ch : List Nat) (F : Store β) (fsp : Id × Int), At bk F x → fsp.1 = x →
-      Pos F fsp → (syncLoop bk L lost x fuel budget ch F fsp).cls ≠ .discont := by
+    ∀ (fuel n budget : Nat) (ch : List Nat) (F : Store β) (fsp : Id × Int), At bk F x → fsp.1 = x →
+      Pos F fsp → (syncLoopV bk V lost x fuel n budget ch F fsp).cls ≠ .discont := by
   intro fuel
   induction fuel with
-  | zero => intro budget ch F fsp _ _ _; simp [syncLoop]
+  | zero => intro n budget ch F fsp _ _ _; simp [syncLoopV]
   | succ fuel ih =>
-    intro budget ch F fsp hat hfx hpos
-    unfold syncLoop
-    have hge := handle_aof_ge L fsp.1 fsp.2 ch
-    generalize L.handle fsp.1 fsp.2 ch = rp at hge ⊢
+    intro n budget ch F fsp hat hfx hpos
+    unfold syncLoopV
+    have hge := handle_aof_ge (V n) fsp.1 fsp.2 ch
+    generalize (V n).handle fsp.1 fsp.2 ch = rp at hge ⊢
     obtain ⟨msgs, fin, rest⟩ := rp
     simp only at hge ⊢
     cases budget with
@@ -1029,7 +1059,7 @@ theorem syncLoop_nodiscont (bk : Backend) (L : Leader β) (lost : Nat) (x : Id)
                 have hst := startPoint_at bk F2 x hx1 hx2 hat2
                 simp only
                 rw [hst]
-                apply ih _ _ F2 _ hat2 (by rw [hoff])
+                apply ih _ _ _ F2 _ hat2 (by rw [hoff])
                 intro d hd
                 rw [hcd] at hd; cases hd
                 rw [hoff]
@@ -1215,24 +1245,31 @@ theorem preSync_pos (bk : Backend) (F : Store β) (x : Id) (loff : Int) (hx1 : x
     · exact hpos
 
 /-- the handshake answer carries the leader's channel id (or none) -/
-theorem handle_hello_id (L : Leader β) (roff : Int) (ch : List Nat) (m : Msg β) (ms : List (Msg β))
-    (hms : (L.handle "" roff ch).msgs = m :: ms) : m.runId = L.cur ∨ m.runId = "" := by
-  unfold Leader.handle at hms
+theorem handle_hello_id (v : View β) (roff : Int) (ch : List Nat) (m : Msg β) (ms : List (Msg β))
+    (hms : (v.handle "" roff ch).msgs = m :: ms) : m.runId = v.l2.cur ∨ m.runId = "" := by
+  unfold View.handle at hms
   split at hms
-  · cases hms
+  · simp only [List.cons.injEq] at hms; rw [← hms.1]; exact Or.inr rfl
   · split at hms
-    · simp only [List.cons.injEq] at hms; rw [← hms.1]; exact Or.inr rfl
+    · cases hms
     · split at hms
       · simp only [List.cons.injEq] at hms; rw [← hms.1]; exact Or.inr rfl
-      · simp only [decide_true, if_true, List.cons.injEq, Bool.true_or] at hms
-        rw [← hms.1]; exact Or.inl rfl
+      · rename_i i0 tl _
+        simp only [decide_true, Bool.true_or, if_true] at hms
+        by_cases h1 : i0 ≠ v.l1.cur
+        · rw [if_pos h1] at hms
+          simp only [List.cons_append, List.nil_append, List.cons.injEq] at hms
+          rw [← hms.1]; exact Or.inr rfl
+        · rw [if_neg h1] at hms
+          simp only [List.nil_append, List.cons.injEq] at hms
+          rw [← hms.1]; exact Or.inl rfl
 
-theorem session_nodiscont (bk : Backend) (L : Leader β) (F : Store β) (ch : List Nat)
-    (cut lost fuel : Nat) (hq : L.cur ≠ "?") (hwf : WF bk F) :
-    (session bk L F ch cut lost fuel).cls ≠ .discont := by
-  unfold session
-  have hh := handle_hello_id L 0 ch
-  generalize L.handle "" 0 ch = rp at hh ⊢
+theorem session_nodiscont (bk : Backend) (V : Nat → View β) (F : Store β) (ch : List Nat)
+    (cut lost fuel : Nat) (hq : (V 0).l2.cur ≠ "?") (hwf : WF bk F) :
+    (sessionV bk V F ch cut lost fuel).cls ≠ .discont := by
+  unfold sessionV
+  have hh := handle_hello_id (V 0) 0 ch
+  generalize (V 0).handle "" 0 ch = rp at hh ⊢
   obtain ⟨msgs, fin, rest⟩ := rp
   simp only at hh ⊢
   cases cut with
@@ -1247,10 +1284,789 @@ theorem session_nodiscont (bk : Backend) (L : Leader β) (F : Store β) (ch : Li
       · split
         · simp
         · next hne =>
-          have hx : m.runId = L.cur := (hh m ms rfl).resolve_right hne
+          have hx : m.runId = (V 0).l2.cur := (hh m ms rfl).resolve_right hne
           have hx2 : m.runId ≠ "?" := hx ▸ hq
           have hp := preSync_ok bk F m.runId m.offset hne hx2 hwf
-          exact syncLoop_nodiscont bk L lost m.runId hne hx2 fuel b _ _ _ hp.1 hp.2.1
+          exact syncLoop_nodiscont bk V lost m.runId hne hx2 fuel 1 b _ _ _ hp.1 hp.2.1
             (preSync_pos bk F m.runId m.offset hne hx2 hwf)
+
+
+/-! ### directories other than the adopted one are never created or changed -/
+
+/-- every directory of `a` is `x`'s or was a directory of `b` (same contents) -/
+def KSub (x : Id) (a b : Dirs β) : Prop := ∀ p ∈ a, p.1 = x ∨ p ∈ b
+
+theorem KSub.refl (x : Id) (a : Dirs β) : KSub x a a := fun _ hp => Or.inr hp
+theorem KSub.trans {x : Id} {a b c : Dirs β} (h1 : KSub x a b) (h2 : KSub x b c) : KSub x a c := by
+  intro p hp
+  rcases h1 p hp with h | h
+  · exact Or.inl h
+  · exact h2 p h
+
+theorem ksub_dropKey (x y : Id) (ds : Dirs β) : KSub x (dropKey ds y) ds :=
+  fun _ hp => Or.inr (mem_dropKey.mp hp).1
+
+theorem ksub_setCur (F : Store β) (v : Option (Data β)) : KSub F.cur (F.setCur v).dirs F.dirs := by
+  intro p hp
+  simp only [Store.setCur, List.mem_cons] at hp
+  rcases hp with rfl | hp
+  · exact Or.inl rfl
+  · exact Or.inr (mem_dropKey.mp hp).1
+
+theorem ksub_reset (bk : Backend) (F : Store β) (x : Id) (hx1 : x ≠ "") (hx2 : x ≠ "?")
+    (h : At bk F x) : KSub x (setRunId bk (delRunId bk F x) x).dirs F.dirs := by
+  obtain ⟨hc, hd, _⟩ := h
+  have hsp := special_false hx1 hx2
+  cases bk with
+  | disk =>
+    rw [delRunId_disk_has hsp (hd rfl), setRunId_disk_nocur rfl,
+      newRunIdDisk_new hsp (has_dropKey_self _ _ _)]
+    intro p hp
+    simp only [List.mem_append, List.mem_singleton] at hp
+    rcases hp with hp | rfl
+    · exact Or.inr (mem_dropKey.mp hp).1
+    · exact Or.inl rfl
+  | mem =>
+    subst hc
+    rw [delRunId_mem_cur]
+    intro p hp
+    simp [setRunId] at hp
+
+theorem ksub_delRunId (bk : Backend) (F : Store β) (x y : Id) : KSub x (delRunId bk F y).dirs F.dirs := by
+  cases bk with
+  | disk =>
+    simp only [delRunId]
+    split
+    · exact KSub.refl _ _
+    · split
+      · exact ksub_dropKey _ _ _
+      · exact KSub.refl _ _
+  | mem =>
+    simp only [delRunId]
+    split
+    · exact KSub.refl _ _
+    · intro p hp; cases hp
+
+theorem ksub_aofRecv (F1 : Store β) (left : Nat) (ms : List (Msg β)) (fin : Fin) (budget lost : Nat) :
+    KSub F1.cur (aofRecv F1 left ms fin budget lost).store.dirs F1.dirs := by
+  unfold aofRecv
+  simp only
+  split
+  · exact KSub.refl _ _
+  · next F2 hw =>
+    unfold aofWrite at hw
+    split at hw
+    · split at hw
+      · cases hw; exact KSub.refl _ _
+      · cases hw; exact ksub_setCur _ _
+    · split at hw
+      · cases hw; exact ksub_setCur _ _
+      · cases hw
+
+theorem ksub_aofSync (bk : Backend) (F : Store β) (x : Id) (m : Msg β) (ms : List (Msg β))
+    (fin : Fin) (budget lost : Nat) (hx1 : x ≠ "") (hx2 : x ≠ "?") (hat : At bk F x) :
+    KSub x (aofSync bk F x m ms fin budget lost).store.dirs F.dirs := by
+  simp only [aofSync]
+  rw [startPoint_at bk F x hx1 hx2 hat]
+  split
+  · have hr := reset_at bk F x hx1 hx2 hat
+    have := ksub_aofRecv (setRunId bk (delRunId bk F x) x) m.offset.toNat ms fin budget lost
+    rw [hr.1.1] at this
+    exact this.trans (ksub_reset bk F x hx1 hx2 hat)
+  · have := ksub_aofRecv F m.offset.toNat ms fin budget lost
+    rw [hat.1] at this
+    exact this
+
+theorem syncLoop_ksub (bk : Backend) (V : Nat → View β) (lost : Nat) (x : Id)
+    (hx1 : x ≠ "") (hx2 : x ≠ "?") :
+    ∀ (fuel n budget : Nat) (ch : List Nat) (F : Store β) (fsp : Id × Int), At bk F x → fsp.1 = x →
+      KSub x (syncLoopV bk V lost x fuel n budget ch F fsp).store.dirs F.dirs := by
+  intro fuel
+  induction fuel with
+  | zero => intro n budget ch F fsp _ _; exact KSub.refl _ _
+  | succ fuel ih =>
+    intro n budget ch F fsp hat hfx
+    unfold syncLoopV
+    generalize (V n).handle fsp.1 fsp.2 ch = rp
+    obtain ⟨msgs, fin, rest⟩ := rp
+    simp only
+    cases budget with
+    | zero => exact KSub.refl _ _
+    | succ b =>
+      cases msgs with
+      | nil => exact KSub.refl _ _
+      | cons m ms =>
+        simp only [Out.pre_store]
+        split
+        · exact KSub.refl _ _
+        · split
+          · exact ksub_delRunId _ _ _ _
+          · split
+            · rw [hfx]; exact ksub_aofSync bk F x m ms fin b lost hx1 hx2 hat
+            · rw [hfx]
+              have hr := reset_at bk F x hx1 hx2 hat
+              have hk := ksub_reset bk F x hx1 hx2 hat
+              generalize setRunId bk (delRunId bk F x) x = F1 at hr hk ⊢
+              split
+              · have := ksub_setCur F1 none
+                rw [hr.1.1] at this
+                exact this.trans hk
+              · simp only [Out.pre_store]
+                have hat2 := setCur_at bk F1 x (some ⟨m.offset.toNat, [], some ((rdbLoop fin b m.size.toNat ms).2.1.take m.size.toNat)⟩) hr.1
+                have hcd := setCur_curData F1 (some ⟨m.offset.toNat, [], some ((rdbLoop fin b m.size.toNat ms).2.1.take m.size.toNat)⟩)
+                have hk2 := ksub_setCur F1 (some ⟨m.offset.toNat, [], some ((rdbLoop fin b m.size.toNat ms).2.1.take m.size.toNat)⟩)
+                rw [hr.1.1] at hk2
+                generalize F1.setCur (some ⟨m.offset.toNat, [], some ((rdbLoop fin b m.size.toNat ms).2.1.take m.size.toNat)⟩) = F2 at hat2 hcd hk2 ⊢
+                have hid2 := startPoint_at_id bk F2 x hx1 hx2 hat2 _ hcd
+                rw [startPoint_at bk F2 x hx1 hx2 hat2]
+                exact (ih _ _ _ F2 _ hat2 hid2).trans (hk2.trans hk)
+
+
+theorem ksub_adopt (bk : Backend) (F : Store β) (x : Id) (hx1 : x ≠ "") (hx2 : x ≠ "?")
+    (hwf : WF bk F) : KSub x (adopt bk F x).dirs F.dirs := by
+  have hnew : ∀ G : Store β, KSub x (newRunIdDisk G x).dirs G.dirs := by
+    intro G
+    have hsp := special_false hx1 hx2
+    cases hh : G.has x with
+    | true => rw [newRunIdDisk_has hsp hh]; exact KSub.refl _ _
+    | false =>
+      rw [newRunIdDisk_new hsp hh]
+      intro p hp
+      simp only [List.mem_append, List.mem_singleton] at hp
+      rcases hp with hp | rfl
+      · exact Or.inr hp
+      · exact Or.inl rfl
+  unfold adopt
+  cases bk with
+  | disk =>
+    obtain ⟨hcur, hq⟩ := hwf
+    by_cases hc : F.cur = ""
+    · have : (F.cur ≠ "" && F.cur ≠ x) = false := by simp [hc]
+      rw [this]
+      simp only [Bool.false_eq_true, if_false]
+      rw [setRunId_disk_nocur hc]
+      exact hnew F
+    · have hhc : F.has F.cur = true := hcur.resolve_left hc
+      by_cases hcx : F.cur = x
+      · have : (F.cur ≠ "" && F.cur ≠ x) = false := by simp [hcx]
+        rw [this]
+        simp only [Bool.false_eq_true, if_false]
+        rw [setRunId_at .disk F x hx1 hx2 (At.mk_disk hcx (hcx ▸ hhc))]
+        exact KSub.refl _ _
+      · have : (F.cur ≠ "" && F.cur ≠ x) = true := by simp [hc, hcx]
+        rw [this]
+        simp only [if_true]
+        rw [delRunId_disk_has (special_false hc hq) hhc, setRunId_disk_nocur rfl]
+        exact (hnew ⟨"", dropKey F.dirs F.cur⟩).trans (ksub_dropKey _ _ _)
+  | mem =>
+    intro p hp
+    simp only [setRunId, List.mem_map] at hp
+    obtain ⟨q, _, rfl⟩ := hp
+    exact Or.inl rfl
+
+theorem preSync_ksub (bk : Backend) (F : Store β) (x : Id) (loff : Int) (hx1 : x ≠ "")
+    (hx2 : x ≠ "?") (hwf : WF bk F) : KSub x (preSync bk F x loff).1.dirs F.dirs := by
+  unfold preSync
+  have hs := startPoint_ok bk F x hx1 hx2 hwf
+  generalize startPoint bk F x = r at hs ⊢
+  obtain ⟨F1, sp⟩ := r
+  obtain ⟨hwf1, hd1, hat1⟩ := hs
+  simp only at hwf1 hd1 hat1 ⊢
+  split
+  · exact hd1 ▸ ksub_adopt bk F1 x hx1 hx2 hwf1
+  · next hcond =>
+    have hspx : sp.1 = x := by
+      simp only [Bool.or_eq_true, decide_eq_true_eq, not_or, ne_eq, Decidable.not_not] at hcond
+      exact hcond.2
+    have hat := hat1 hspx
+    split
+    · split
+      · rw [hspx]; exact hd1 ▸ ksub_reset bk F1 x hx1 hx2 hat
+      · rw [setRunId_at bk F1 x hx1 hx2 hat]; exact hd1 ▸ KSub.refl _ _
+    · exact hd1 ▸ KSub.refl _ _
+
+/-- a session never creates or changes a directory other than the one of the id the
+    leader announced in its handshake -/
+theorem session_ksub (bk : Backend) (V : Nat → View β) (F : Store β) (ch : List Nat)
+    (cut lost fuel : Nat) (hq : (V 0).l2.cur ≠ "?") (hwf : WF bk F) :
+    KSub (V 0).l2.cur (sessionV bk V F ch cut lost fuel).store.dirs F.dirs := by
+  unfold sessionV
+  have hh := handle_hello_id (V 0) 0 ch
+  generalize (V 0).handle "" 0 ch = rp at hh ⊢
+  obtain ⟨msgs, fin, rest⟩ := rp
+  simp only at hh ⊢
+  cases cut with
+  | zero => exact KSub.refl _ _
+  | succ b =>
+    cases msgs with
+    | nil => exact KSub.refl _ _
+    | cons m ms =>
+      simp only [Out.pre_store]
+      split
+      · exact KSub.refl _ _
+      · split
+        · exact KSub.refl _ _
+        · next hne =>
+          have hx : m.runId = (V 0).l2.cur := (hh m ms rfl).resolve_right hne
+          have hx2 : m.runId ≠ "?" := hx ▸ hq
+          have hp := preSync_ok bk F m.runId m.offset hne hx2 hwf
+          have h1 := syncLoop_ksub bk V lost m.runId hne hx2 fuel 1 b rest _ _ hp.1 hp.2.1
+          rw [← hx]
+          exact h1.trans (preSync_ksub bk F m.runId m.offset hne hx2 hwf)
+
+/-! ### a follower that holds data under the leader's id -/
+
+theorem startPoint_sameid (bk : Backend) (F : Store β) (x : Id) (e : Data β) (hx1 : x ≠ "")
+    (hx2 : x ≠ "?") (hF : F.get x = some (some e)) (hm : bk = .mem → F.cur = x) :
+    startPoint bk F x = (⟨x, F.dirs⟩, (x, (e.right : Int))) := by
+  have hsp := special_false hx1 hx2
+  have hhx : F.has x = true := by simp [Store.has, hF]
+  cases bk with
+  | disk =>
+    simp only [startPoint, hsp, Bool.false_eq_true, if_false, hF]
+    have : ¬ latest (some e) < 0 := by simp only [latest]; omega
+    rw [if_neg this, setRunId_disk_has hsp hhx]
+    rfl
+  | mem =>
+    have hcx := hm rfl
+    have hcd : F.curData = some e := by simp [Store.curData, hcx, hF]
+    simp only [startPoint, hsp, hcx, Bool.not_false, Bool.true_and, decide_true, if_true, hcd, latest]
+    rw [← hcx]
+
+theorem at_sameid (bk : Backend) (F : Store β) (x : Id) (e : Data β) (hwf : WF bk F)
+    (hF : F.get x = some (some e)) (hm : bk = .mem → F.cur = x) : At bk (⟨x, F.dirs⟩ : Store β) x := by
+  have hhx : F.has x = true := by simp [Store.has, hF]
+  cases bk with
+  | disk => exact At.mk_disk rfl hhx
+  | mem =>
+    refine At.mk_mem rfl ?_
+    intro p hp
+    have := hwf.1 p hp
+    rw [hm rfl] at this
+    exact this
+
+theorem curData_sameid (F : Store β) (x : Id) (e : Data β) (hF : F.get x = some (some e)) :
+    (⟨x, F.dirs⟩ : Store β).curData = some e := by
+  simp only [Store.curData, Store.get]
+  have : getD F.dirs x = some (some e) := hF
+  rw [this]
+
+/-- `preSync` of a follower that holds `e` under the leader's id: it keeps its own end,
+    unless the leader is more than `tenMB` ahead — then it deletes its copy -/
+theorem preSync_sameid (bk : Backend) (F : Store β) (x : Id) (e : Data β) (loff : Int)
+    (hx1 : x ≠ "") (hx2 : x ≠ "?") (hwf : WF bk F) (hF : F.get x = some (some e))
+    (hm : bk = .mem → F.cur = x) :
+    preSync bk F x loff =
+      if loff - (e.right : Int) > tenMB then
+        (setRunId bk (delRunId bk ⟨x, F.dirs⟩ x) x, (x, loff))
+      else (⟨x, F.dirs⟩, (x, (e.right : Int))) := by
+  have hat := at_sameid bk F x e hwf hF hm
+  unfold preSync
+  simp only [startPoint_sameid bk F x e hx1 hx2 hF hm, hx1, hx2, decide_false, Bool.false_or,
+    ne_eq, not_true_eq_false, Bool.false_eq_true, if_false]
+  by_cases hg : loff - (e.right : Int) > tenMB
+  · have h0 : loff - (e.right : Int) > 0 := by
+      have : (0 : Int) ≤ tenMB := by simp [tenMB, Gen.replicaGapClear]
+      omega
+    rw [if_pos h0, if_pos hg, if_pos hg]
+  · by_cases h0 : loff - (e.right : Int) > 0
+    · simp only [if_pos h0, if_neg hg, setRunId_at bk _ x hx1 hx2 hat]
+    · simp only [if_neg h0, if_neg hg]
+
+
+/-! ### a leader that serves run id `x` and does not change -/
+
+structure Serves (L : Leader β) (x : Id) : Prop where
+  gate : L.serving = true
+  started : L.started = true
+  ids : ∃ tl, L.inputIds = x :: tl
+  cur : L.cur = x
+
+theorem hello_static {L : Leader β} {x : Id} (hs : Serves L x) (ch : List Nat) :
+    (View.const L).handle "" 0 ch = ⟨[⟨.info, x, false, latest L.data, 0, []⟩], .eof, ch⟩ := by
+  obtain ⟨tl, hi⟩ := hs.ids
+  simp [View.handle, View.const, hs.gate, hs.started, hi, hs.cur]
+
+theorem meta_static {L : Leader β} {x : Id} (hs : Serves L x) (hx1 : x ≠ "") (hx2 : x ≠ "?")
+    (roff : Int) (ch : List Nat) (hle : ¬ roff - latest L.data > 0) :
+    (View.const L).handle x roff ch =
+      L.sendData x (if L.valid x roff then roff else latest L.data) ch := by
+  obtain ⟨tl, hi⟩ := hs.ids
+  have : ((x = "") || (x = "?")) = false := by simp [hx1, hx2]
+  have hle' : ¬ latest L.data < roff := by omega
+  simp [View.handle, View.const, hs.gate, hs.started, hi, hs.cur, this, hle']
+  rfl
+
+theorem handover_static {L : Leader β} {x : Id} (hs : Serves L x) (hx1 : x ≠ "") (hx2 : x ≠ "?")
+    (roff : Int) (ch : List Nat) (hgt : roff - latest L.data > 0) :
+    (View.const L).handle x roff ch = ⟨[⟨.handover, x, false, latest L.data, 0, []⟩], .err, ch⟩ := by
+  obtain ⟨tl, hi⟩ := hs.ids
+  have : ((x = "") || (x = "?")) = false := by simp [hx1, hx2]
+  have hgt' : latest L.data < roff := by omega
+  simp [View.handle, View.const, hs.gate, hs.started, hi, hs.cur, this, hgt']
+
+theorem session_static {L : Leader β} {x : Id} (hs : Serves L x) (hx1 : x ≠ "") (bk : Backend)
+    (F : Store β) (ch : List Nat) (c lost fuel : Nat) :
+    session bk L F ch (c + 1) lost fuel =
+      Out.pre [⟨.info, x, false, latest L.data, 0, []⟩]
+        (syncLoopV bk (fun _ => View.const L) lost x fuel 1 c ch
+          (preSync bk F x (latest L.data)).1 (preSync bk F x (latest L.data)).2) := by
+  simp only [session, sessionV, hello_static hs, respErr, hx1, if_false]
+
+/-- the stream reader opened at the leader's newest offset -/
+theorem sendData_newest {L : Leader β} {x : Id} (hc : L.cur = x) (d : Data β) (hd : L.data = some d)
+    (hseg : L.hasSegs d = true) (ch : List Nat) :
+    L.sendData x (d.right : Int) ch =
+      ⟨⟨.info, "", true, d.right, -1, []⟩ :: conts d.right (chop ch L.tail).1, .blocks, (chop ch L.tail).2⟩ := by
+  have hin : L.inAof d (d.right : Int) = true := by
+    simp only [Leader.inAof, hseg, Bool.true_and, Bool.and_eq_true, Data.right]
+    constructor <;> (apply decide_eq_true; omega)
+  have : ((d.right : Int) - (d.base : Int)).toNat = d.bytes.length := by
+    simp only [Data.right]; omega
+  simp only [Leader.sendData, hd, hin, if_true, hc, ne_eq, not_true_eq_false, if_false, this,
+    List.drop_length, List.nil_append]
+
+/-- whatever the receive half stores on an empty cache starts at the announced offset -/
+theorem aofRecv_fresh (F1 : Store β) (left : Nat) (ms : List (Msg β)) (fin : Fin) (budget lost : Nat)
+    (he : F1.curData = none) (e' : Data β)
+    (h : (aofRecv F1 left ms fin budget lost).store.curData = some e') :
+    e'.base = left ∧ e'.snap = none := by
+  unfold aofRecv at h
+  simp only at h
+  generalize (aofLoop fin budget ms).2.1.take ((aofLoop fin budget ms).2.1.length - lost) = p at h
+  unfold aofWrite at h
+  rw [he] at h
+  simp only at h
+  cases p with
+  | nil => simp only at h; rw [he] at h; cases h
+  | cons a as =>
+    simp only at h
+    rw [setCur_curData] at h
+    cases h
+    exact ⟨rfl, rfl⟩
+
+/-- `aofSync` when the leader's stream starts beyond everything the follower holds (or the
+    follower holds nothing): what it stores starts at the announced offset -/
+theorem aofSync_fresh (bk : Backend) (F : Store β) (x : Id) (m : Msg β) (ms : List (Msg β))
+    (fin : Fin) (budget lost : Nat) (hx1 : x ≠ "") (hx2 : x ≠ "?") (hat : At bk F x)
+    (hbeyond : ∀ e, F.curData = some e → (e.right : Int) < m.offset) (e' : Data β)
+    (h : (aofSync bk F x m ms fin budget lost).store.curData = some e') :
+    e'.base = m.offset.toNat ∧ e'.snap = none := by
+  simp only [aofSync] at h
+  rw [startPoint_at bk F x hx1 hx2 hat] at h
+  cases hcd : F.curData with
+  | none =>
+    split at h
+    · exact aofRecv_fresh _ _ _ _ _ _ (reset_at bk F x hx1 hx2 hat).2.2 e' h
+    · exact aofRecv_fresh _ _ _ _ _ _ hcd e' h
+  | some e =>
+    have hlt := hbeyond e hcd
+    rw [startPoint_at_off bk F x hx1 hx2 hat e hcd] at h
+    have : (decide (m.offset > (e.right : Int)) && decide (x ≠ "?")) = true := by simp [hlt, hx2]
+    simp only [this, if_true] at h
+    exact aofRecv_fresh _ _ _ _ _ _ (reset_at bk F x hx1 hx2 hat).2.2 e' h
+
+
+/-- a follower that holds nothing for `x` asks an empty leader (offset -1) at -1 -/
+theorem preSync_nodata_off (bk : Backend) (F : Store β) (x : Id) (hx1 : x ≠ "") (hx2 : x ≠ "?")
+    (hwf : WF bk F) (hnot : ∀ e, F.get x = some (some e) → False) :
+    (preSync bk F x (-1)).2.2 = -1 := by
+  have hsp := special_false hx1 hx2
+  -- StartPoint answers with another id, or with (x, -1)
+  have hst : (startPoint bk F x).2.1 ≠ x ∨ (startPoint bk F x).2 = (x, -1) := by
+    cases bk with
+    | disk =>
+      simp only [startPoint, hsp, Bool.false_eq_true, if_false]
+      cases hg : F.get x with
+      | none =>
+        left
+        have hnx : F.has x = false := by simp [Store.has, hg]
+        simp only
+        by_cases hc : F.cur = ""
+        · simp [hc]; exact fun h => hx2 h.symm
+        · simp only [hc, if_false]
+          intro e
+          have := hwf.1.resolve_left hc
+          rw [e, hnx] at this; cases this
+      | some v =>
+        cases v with
+        | some e => exact absurd hg (fun h => hnot e h)
+        | none => left; simp [latest]; exact fun h => hx2 h.symm
+    | mem =>
+      simp only [startPoint]
+      split
+      · next hc =>
+        right
+        have hxc : x = F.cur := by simpa [hsp] using hc
+        have hcd : F.curData = none := by
+          unfold Store.curData
+          split
+          · next d hd => exact absurd (hxc ▸ hd) (fun h => hnot d h)
+          · rfl
+        simp only [hcd, latest, ← hxc]
+      · left; simp; exact fun h => hx2 h.symm
+  unfold preSync
+  generalize startPoint bk F x = r at hst
+  obtain ⟨F1, sp⟩ := r
+  simp only at hst ⊢
+  rcases hst with hne | heq
+  · have : (sp.1 = "?" || sp.1 = "" || sp.1 ≠ x) = true := by simp [hne]
+    rw [if_pos this]
+  · rw [heq]
+    simp only [hx1, hx2, decide_false, Bool.false_or, ne_eq, not_true_eq_false, Bool.false_eq_true,
+      if_false]
+    have : ¬ ((-1 : Int) - (-1) > 0) := by omega
+    rw [if_neg this]
+
+
+/-! ### progress: an uninterrupted session brings the follower to the leader's end -/
+
+theorem chop_nonempty (ch : List Nat) (xs : List β) : ∀ c ∈ (chop ch xs).1, c ≠ [] := by
+  induction ch generalizing xs with
+  | nil => cases xs <;> simp [chop]
+  | cons k ks ih =>
+    cases xs with
+    | nil => simp [chop]
+    | cons a as =>
+      simp only [chop]
+      split
+      · exact ih _
+      · next hk =>
+        intro c hc
+        simp only [List.mem_cons] at hc
+        rcases hc with rfl | hc
+        · cases k with
+          | zero => exact absurd rfl hk
+          | succ k => simp
+        · exact ih _ c hc
+
+theorem chop_length_le (ch : List Nat) (xs : List β) : (chop ch xs).1.length ≤ xs.length := by
+  have h1 := chop_nonempty ch xs
+  have h2 := chop_flatten ch xs
+  generalize (chop ch xs).1 = cs at h1 h2
+  rw [← h2]
+  clear h2
+  induction cs with
+  | nil => simp
+  | cons c cs ih =>
+    have hc : c ≠ [] := h1 c (List.mem_cons_self ..)
+    have := ih (fun c' hc' => h1 c' (List.mem_cons_of_mem _ hc'))
+    have hl : 0 < c.length := List.length_pos_iff.mpr hc
+    simp only [List.length_cons, List.flatten_cons, List.length_append]
+    omega
+
+theorem payload_cont (o : Int) (c : List β) :
+    payload (⟨.cont, "", false, o, c.length, c⟩ : Msg β) = c := by simp [payload]
+
+theorem aofLoop_conts_all (n : Nat) (o : Int) (cs : List (List β)) (hn : cs.length ≤ n) :
+    (aofLoop .blocks n (conts o cs)).2.1 = cs.flatten ∧ (aofLoop .blocks n (conts o cs)).2.2 = .cut := by
+  induction cs generalizing n o with
+  | nil => cases n <;> simp [conts, aofLoop, finCls]
+  | cons c cs ih =>
+    cases n with
+    | zero => simp at hn
+    | succ n =>
+      have := ih n (o + c.length) (by simpa using hn)
+      simp only [conts, aofLoop, respErr, payload_cont, List.flatten_cons, this]
+      exact ⟨trivial, trivial⟩
+
+theorem rdbLoop_conts_all (fin : Fin) (n : Nat) (o : Int) (cs : List (List β)) (hn : cs.length ≤ n)
+    (hne : ∀ c ∈ cs, c ≠ []) :
+    rdbLoop fin n cs.flatten.length (conts o cs) = (conts o cs, cs.flatten, none) := by
+  induction cs generalizing n o with
+  | nil => simp [conts, rdbLoop]
+  | cons c cs ih =>
+    cases n with
+    | zero => simp at hn
+    | succ n =>
+      have hc : 0 < c.length := List.length_pos_iff.mpr (hne c (List.mem_cons_self ..))
+      obtain ⟨r, hr⟩ : ∃ r, (c :: cs).flatten.length = r + 1 := by
+        simp only [List.flatten_cons, List.length_append]
+        exact ⟨c.length + cs.flatten.length - 1, by omega⟩
+      have hrem : r + 1 - c.length = cs.flatten.length := by
+        simp only [List.flatten_cons, List.length_append] at hr; omega
+      rw [hr]
+      simp only [conts, rdbLoop, respErr, payload_cont, hrem]
+      rw [ih n (o + c.length) (by simpa using hn) (fun c' hc' => hne c' (List.mem_cons_of_mem _ hc'))]
+      simp
+
+theorem conts_length (o : Int) (cs : List (List β)) : (conts o cs).length = cs.length := by
+  induction cs generalizing o with
+  | nil => rfl
+  | cons c cs ih => simp [conts, ih]
+
+/-- the receive half with everything delivered and nothing lost -/
+theorem aofRecv_all (F1 : Store β) (off : Nat) (o : Int) (cs : List (List β)) (b : Nat)
+    (hb : cs.length ≤ b)
+    (h1 : ∀ e, F1.curData = some e → e.right = off) :
+    (aofRecv F1 off (conts o cs) .blocks b 0).stage = .aof ∧
+    (aofRecv F1 off (conts o cs) .blocks b 0).cls = .cut ∧
+    (∀ e', (aofRecv F1 off (conts o cs) .blocks b 0).store.curData = some e' →
+        e'.right = off + cs.flatten.length) ∧
+    ((aofRecv F1 off (conts o cs) .blocks b 0).store.curData = none → cs.flatten = []) := by
+  have ha := aofLoop_conts_all b o cs hb
+  unfold aofRecv
+  simp only [ha.1, ha.2, Nat.sub_zero, List.take_length]
+  unfold aofWrite
+  cases hcd : F1.curData with
+  | none =>
+    simp only
+    cases hp : cs.flatten with
+    | nil => simp [hcd]
+    | cons a as =>
+      simp only [setCur_curData]
+      refine ⟨trivial, trivial, ?_, ?_⟩
+      · intro e' he'; cases he'; simp [Data.right]
+      · intro h; cases h
+  | some e =>
+    have := h1 e hcd
+    simp only [this, if_true, setCur_curData]
+    refine ⟨trivial, trivial, ?_, ?_⟩
+    · intro e' he'; cases he'
+      simp only [Data.right, List.length_append] at this ⊢
+      omega
+    · intro h; cases h
+
+/-- `aofSync` with everything delivered: the follower ends at `off + |bytes sent|` -/
+theorem aofSync_all (bk : Backend) (G : Store β) (x : Id) (off : Int) (cs : List (List β)) (b : Nat)
+    (hx1 : x ≠ "") (hx2 : x ≠ "?") (hat : At bk G x) (h0 : 0 ≤ off) (hb : cs.length ≤ b)
+    (hle : ∀ e, G.curData = some e → (e.right : Int) ≤ off) :
+    let o := aofSync bk G x ⟨.info, "", true, off, -1, []⟩ (conts off cs) .blocks b 0
+    o.stage = .aof ∧ o.cls = .cut ∧
+      (∀ e', o.store.curData = some e' → (e'.right : Int) = off + cs.flatten.length) ∧
+      (o.store.curData = none → cs.flatten = []) := by
+  simp only [aofSync]
+  rw [startPoint_at bk G x hx1 hx2 hat]
+  have hfin : ∀ F1 : Store β, (∀ e, F1.curData = some e → e.right = off.toNat) →
+      (aofRecv F1 off.toNat (conts off cs) .blocks b 0).stage = .aof ∧
+      (aofRecv F1 off.toNat (conts off cs) .blocks b 0).cls = .cut ∧
+      (∀ e', (aofRecv F1 off.toNat (conts off cs) .blocks b 0).store.curData = some e' →
+        (e'.right : Int) = off + cs.flatten.length) ∧
+      ((aofRecv F1 off.toNat (conts off cs) .blocks b 0).store.curData = none → cs.flatten = []) := by
+    intro F1 h1
+    have := aofRecv_all F1 off.toNat off cs b hb h1
+    refine ⟨this.1, this.2.1, ?_, this.2.2.2⟩
+    intro e' he'
+    have := this.2.2.1 e' he'
+    omega
+  cases hcd : G.curData with
+  | none =>
+    split
+    · apply hfin; intro e he; rw [(reset_at bk G x hx1 hx2 hat).2.2] at he; cases he
+    · apply hfin; intro e he; rw [hcd] at he; cases he
+  | some e =>
+    have hl := hle e hcd
+    rw [startPoint_at_off bk G x hx1 hx2 hat e hcd]
+    by_cases hgt : off > (e.right : Int)
+    · have : (decide (off > (e.right : Int)) && decide (x ≠ "?")) = true := by simp [hgt, hx2]
+      simp only [this, if_true]
+      apply hfin; intro e1 he1; rw [(reset_at bk G x hx1 hx2 hat).2.2] at he1; cases he1
+    · have : (decide (off > (e.right : Int)) && decide (x ≠ "?")) = false := by simp [hgt]
+      simp only [this, Bool.false_eq_true, if_false]
+      apply hfin; intro e1 he1; rw [hcd] at he1; cases he1; omega
+
+
+@[simp] theorem Out.pre_stage (ms : List (Msg β)) (o : Out β) : (Out.pre ms o).stage = o.stage := rfl
+@[simp] theorem Out.pre_cls (ms : List (Msg β)) (o : Out β) : (Out.pre ms o).cls = o.cls := rfl
+
+/-- the session ended in the stream transfer with nothing left to fetch: the follower is
+    at the leader's end (including what arrived meanwhile) -/
+def Reached (L : Leader β) (d : Data β) (o : Out β) : Prop :=
+  o.stage = .aof ∧ o.cls = .cut ∧
+    (∀ e', o.store.curData = some e' → (e'.right : Int) = (d.right : Int) + L.tail.length) ∧
+    (o.store.curData = none → L.tail = [])
+
+theorem sendData_aof_eval {L : Leader β} {x : Id} (hc : L.cur = x) (d : Data β) (hd : L.data = some d)
+    (off : Int) (hin : L.inAof d off = true) (ch : List Nat) :
+    L.sendData x off ch =
+      ⟨⟨.info, "", true, off, -1, []⟩ ::
+          conts off (chop ch (d.bytes.drop (off - (d.base : Int)).toNat ++ L.tail)).1, .blocks,
+        (chop ch (d.bytes.drop (off - (d.base : Int)).toNat ++ L.tail)).2⟩ := by
+  simp only [Leader.sendData, hd, hin, if_true, hc, ne_eq, not_true_eq_false, if_false]
+
+theorem sendData_rdb_eval {L : Leader β} {x : Id} (hc : L.cur = x) (d : Data β) (hd : L.data = some d)
+    (off : Int) (hin : L.inAof d off = false) (sn : List β) (hsn : d.snap = some sn)
+    (hle : off ≤ (d.base : Int)) (ch : List Nat) :
+    L.sendData x off ch =
+      ⟨⟨.info, "", false, d.base, sn.length, []⟩ :: conts off (chop ch sn).1, .eof, (chop ch sn).2⟩ := by
+  simp only [Leader.sendData, hd, hin, Bool.false_eq_true, if_false, hsn, hle, if_true, hc, ne_eq,
+    not_true_eq_false]
+
+/-- one `metaSync` round answered with the stream -/
+theorem syncLoop_reach_aof (bk : Backend) (L : Leader β) (x : Id) (d : Data β) (hs : Serves L x)
+    (hx1 : x ≠ "") (hx2 : x ≠ "?") (hd : L.data = some d)
+    (fuel n b : Nat) (ch : List Nat) (G : Store β) (roff : Int) (hat : At bk G x)
+    (hle : roff ≤ (d.right : Int))
+    (hpos : ∀ e, G.curData = some e → (e.right : Int) = roff)
+    (hin : L.inAof d (if L.valid x roff then roff else latest L.data) = true)
+    (hb : d.bytes.length + L.tail.length ≤ b) :
+    Reached L d (syncLoopV bk (fun _ => View.const L) 0 x (fuel + 1) n (b + 1) ch G (x, roff)) := by
+  have hlat : latest L.data = (d.right : Int) := by rw [hd]; rfl
+  have hnh : ¬ roff - latest L.data > 0 := by rw [hlat]; omega
+  generalize hoff : (if L.valid x roff then roff else latest L.data) = off at hin
+  have hge : roff ≤ off := by rw [← hoff]; split <;> omega
+  have hbounds : (d.base : Int) ≤ off ∧ off ≤ (d.base : Int) + (d.bytes.length : Int) := by
+    have hin2 := hin
+    simp [Leader.inAof, Data.right] at hin2
+    obtain ⟨⟨_, h1⟩, h2⟩ := hin2
+    have h2 := of_decide_eq_true h2
+    constructor <;> omega
+  obtain ⟨hlo, hhi⟩ := hbounds
+  unfold syncLoopV
+  simp only
+  rw [meta_static hs hx1 hx2 roff ch hnh, hoff, sendData_aof_eval hs.cur d hd off hin ch]
+  simp only [respErr, reduceCtorEq, if_false, if_true, Out.pre_stage, Out.pre_cls, Out.pre_store, Reached]
+  have hk : (off - (d.base : Int)).toNat ≤ d.bytes.length := by omega
+  have hlen := chop_length_le ch (d.bytes.drop (off - (d.base : Int)).toNat ++ L.tail)
+  have hfl := chop_flatten ch (d.bytes.drop (off - (d.base : Int)).toNat ++ L.tail)
+  generalize (chop ch (d.bytes.drop (off - (d.base : Int)).toNat ++ L.tail)).1 = cs at hlen hfl
+  simp only [List.length_append, List.length_drop] at hlen
+  have hall := aofSync_all bk G x off cs b hx1 hx2 hat (by omega) (by omega)
+    (by intro e he; rw [hpos e he]; exact hge)
+  simp only at hall
+  refine ⟨hall.1, hall.2.1, ?_, ?_⟩
+  · intro e' he'
+    rw [hall.2.2.1 e' he', hfl]
+    simp only [List.length_append, List.length_drop, Data.right]
+    omega
+  · intro hn
+    have := hall.2.2.2 hn
+    rw [hfl] at this
+    exact (List.append_eq_nil_iff.mp this).2
+
+/-- a `metaSync` round answered with the snapshot, then one answered with the stream -/
+theorem syncLoop_reach (bk : Backend) (L : Leader β) (x : Id) (d : Data β) (hs : Serves L x)
+    (hx1 : x ≠ "") (hx2 : x ≠ "?") (hd : L.data = some d) (hw : L.hasSegs d = true)
+    (fuel n b : Nat) (ch : List Nat) (G : Store β) (roff : Int) (hat : At bk G x)
+    (hle : roff ≤ (d.right : Int))
+    (hpos : ∀ e, G.curData = some e → (e.right : Int) = roff)
+    (hb : (d.snap.getD []).length + 1 + d.bytes.length + L.tail.length ≤ b) :
+    Reached L d (syncLoopV bk (fun _ => View.const L) 0 x (fuel + 2) n (b + 1) ch G (x, roff)) := by
+  have hlat : latest L.data = (d.right : Int) := by rw [hd]; rfl
+  have hnh : ¬ roff - latest L.data > 0 := by rw [hlat]; omega
+  by_cases hin : L.inAof d (if L.valid x roff then roff else latest L.data) = true
+  · exact syncLoop_reach_aof bk L x d hs hx1 hx2 hd (fuel + 1) n b ch G roff hat hle hpos hin (by omega)
+  · -- not covered by a segment: the offset is valid through the snapshot
+    have hnewest : L.inAof d (d.right : Int) = true := by
+      simp only [Leader.inAof, hw, Bool.true_and, Bool.and_eq_true, Data.right]
+      constructor <;> (apply decide_eq_true; omega)
+    have hv : L.valid x roff = true := by
+      cases hv : L.valid x roff with
+      | true => rfl
+      | false => rw [hv, hlat] at hin; exact absurd hnewest (by simpa using hin)
+    rw [hv] at hin
+    simp only [if_true] at hin
+    have hrdb : inRdb d roff = true := by
+      simp only [Leader.valid, hs.cur, decide_true, Bool.true_and, hd] at hv
+      cases h1 : L.inAof d roff with
+      | true => exact absurd h1 hin
+      | false => rw [h1] at hv; simpa using hv
+    simp only [inRdb, Bool.and_eq_true, decide_eq_true_eq] at hrdb
+    obtain ⟨hsn, hrb⟩ := hrdb
+    obtain ⟨sn, hsnap⟩ := Option.isSome_iff_exists.mp hsn
+    have hin0 : L.inAof d roff = false := by simpa using hin
+    unfold syncLoopV
+    simp only
+    rw [meta_static hs hx1 hx2 roff ch hnh, hv]
+    simp only [if_true]
+    rw [sendData_rdb_eval hs.cur d hd roff hin0 sn hsnap hrb ch]
+    simp only [respErr, reduceCtorEq, if_false, Bool.false_eq_true, Int.toNat_natCast]
+    have hlen := chop_length_le ch sn
+    have hfl := chop_flatten ch sn
+    have hne := chop_nonempty ch sn
+    generalize hrest : (chop ch sn).2 = rest
+    generalize (chop ch sn).1 = cs at hlen hfl hne
+    have hsl : sn.length = cs.flatten.length := by rw [hfl]
+    have hb1 : cs.length ≤ b := by
+      rw [hsnap] at hb; simp only [Option.getD_some] at hb; omega
+    rw [hsl, rdbLoop_conts_all .eof b roff cs hb1 hne]
+    simp only [List.take_length, conts_length]
+    have hr := reset_at bk G x hx1 hx2 hat
+    generalize setRunId bk (delRunId bk G x) x = F1 at hr
+    have hat2 := setCur_at bk F1 x (some ⟨d.base, [], some cs.flatten⟩) hr.1
+    have hcd := setCur_curData F1 (some ⟨d.base, [], some cs.flatten⟩)
+    generalize F1.setCur (some ⟨d.base, [], some cs.flatten⟩) = F2 at hat2 hcd
+    rw [startPoint_at bk F2 x hx1 hx2 hat2, startPoint_at_off bk F2 x hx1 hx2 hat2 _ hcd]
+    simp only [Data.right, List.length_nil, Nat.add_zero]
+    have hinb0 : L.inAof d (d.base : Int) = true := by
+      simp only [Leader.inAof, hw, Bool.true_and, Bool.and_eq_true, Data.right]
+      constructor <;> (apply decide_eq_true; omega)
+    have hvb : L.valid x (d.base : Int) = true := by
+      simp only [Leader.valid, hs.cur, decide_true, Bool.true_and, hd, hinb0, Bool.true_or]
+    have hinb : L.inAof d (if L.valid x (d.base : Int) then (d.base : Int) else latest L.data) = true := by
+      rw [hvb]
+      simp only [if_true]
+      exact hinb0
+    obtain ⟨b', hb'⟩ : ∃ b', b - cs.length = b' + 1 := by
+      rw [hsnap] at hb; simp only [Option.getD_some] at hb
+      exact ⟨b - cs.length - 1, by omega⟩
+    rw [hb']
+    have := syncLoop_reach_aof bk L x d hs hx1 hx2 hd fuel (n + 1) b' rest F2 (d.base : Int) hat2
+      (by simp only [Data.right]; omega) (by intro e he; rw [hcd] at he; cases he; simp [Data.right]) hinb
+      (by rw [hsnap] at hb; simp only [Option.getD_some] at hb; omega)
+    simpa [Reached] using this
+
+
+/-- a follower that is not ahead of `R` asks at `R` or below -/
+theorem preSync_off_le (bk : Backend) (F : Store β) (x : Id) (R : Int) (hx1 : x ≠ "") (hx2 : x ≠ "?")
+    (hwf : WF bk F) (hR : -1 ≤ R) (hna : ∀ e, F.get x = some (some e) → (e.right : Int) ≤ R) :
+    (preSync bk F x R).2.2 ≤ R := by
+  have hsp := special_false hx1 hx2
+  have hst : (startPoint bk F x).2.1 ≠ x ∨ (startPoint bk F x).2.2 ≤ R := by
+    cases bk with
+    | disk =>
+      simp only [startPoint, hsp, Bool.false_eq_true, if_false]
+      cases hg : F.get x with
+      | none =>
+        left
+        have hnx : F.has x = false := by simp [Store.has, hg]
+        simp only
+        by_cases hc : F.cur = ""
+        · simp [hc]; exact fun h => hx2 h.symm
+        · simp only [hc, if_false]
+          intro e
+          have := hwf.1.resolve_left hc
+          rw [e, hnx] at this; cases this
+      | some v =>
+        cases v with
+        | some e =>
+          right
+          have : ¬ latest (some e) < 0 := by simp only [latest]; omega
+          simp only [this, if_false, latest]
+          exact hna e hg
+        | none => left; simp [latest]; exact fun h => hx2 h.symm
+    | mem =>
+      simp only [startPoint]
+      split
+      · next hc =>
+        right
+        have hxc : x = F.cur := by simpa [hsp] using hc
+        simp only
+        cases hcd : F.curData with
+        | none => simpa [latest] using hR
+        | some e =>
+          simp only [latest]
+          apply hna e
+          unfold Store.curData at hcd
+          split at hcd
+          · next d hd => cases hcd; rw [hxc]; exact hd
+          · cases hcd
+      · left; simp; exact fun h => hx2 h.symm
+  unfold preSync
+  generalize startPoint bk F x = r at hst
+  obtain ⟨F1, sp⟩ := r
+  simp only at hst ⊢
+  split
+  · exact Int.le_refl _
+  · next hcond =>
+    have hspx : sp.1 = x := by
+      simp only [Bool.or_eq_true, decide_eq_true_eq, not_or, ne_eq, Decidable.not_not] at hcond
+      exact hcond.2
+    have ho : sp.2 ≤ R := hst.resolve_left (fun h => h hspx)
+    split
+    · split
+      · exact Int.le_refl _
+      · exact ho
+    · exact ho
 
 end GunYu.Replica
